@@ -319,11 +319,14 @@ class Ctx:
             m = None
             # 1st choice: dyadic values in generic position (non-zero, pairwise distinct): a replay on real numpy is then
             # exact and not masked by coincidences (e.g. rotation 0, origin 0); 2nd choice: dyadic only
-            for generic in (True, False):
+            # within each choice small magnitudes first (|x| <= 64): replays stay inside every machine range
+            for generic, bound in ((True, 64), (True, None), (False, 64), (False, None)):
                 self.solver.push()
                 for n, c in enumerate(reals):
                     k = z3.Int(f"__dy{n}")
                     self.solver.add(c * denom == z3.ToReal(k))
+                    if bound is not None:
+                        self.solver.add(c <= bound, c >= -bound)
                 if generic and len(reals) <= 24:
                     for i, c in enumerate(reals):
                         self.solver.add(c != 0)
